@@ -607,6 +607,17 @@ pub fn mon_c19(_sim: &Sim, step: &Step, st: &mut Stats) -> Result<(), String> {
         if !p.all_reserves_positive() || x.offer == 0 {
             continue;
         }
+        // the property speaks about skews up to 1000:1 and reserves up to 10^30 units; generated
+        // histories go far beyond both (and the numeric engines cover the range systematically)
+        {
+            let mut a = p.reserves.clone();
+            a[x.oi] = a[x.oi].saturating_add(x.offer);
+            let skew = crate::props::c19::skew_of(&a, &p.decimals).max(crate::props::c19::skew_of(&p.reserves, &p.decimals));
+            if skew > 1000 || p.reserves.iter().any(|r| *r > 10u128.pow(30)) || x.offer > 10u128.pow(30) {
+                st.bump("c19: swaps outside the property's range (skew above 1000:1 or above 10^30 units)");
+                continue;
+            }
+        }
         let net = |g: &BigUint| -> BigUint {
             let g128 = u128::try_from(g.clone()).unwrap_or(u128::MAX);
             let fees: u128 = fee_floor(g128, p.swap_fee) + fee_floor(g128, p.protocol_fee) + fee_floor(g128, p.burn_fee) + p.extra_fees.iter().map(|s| fee_floor(g128, *s)).sum::<u128>();
